@@ -400,6 +400,9 @@ pub fn ref_drivers<T: Scalar>(property: &str, spec: &Spec, drivers: &[Vec<f64>],
     }
 }
 
+/// wall-clock budget of one scale-family driver
+pub const SCALE_BUDGET_S: u64 = 25;
+
 /// Steps (0-based) at which windows fill and slide and at which counters of the usual integer
 /// widths wrap: around K and 2K, around every power of two from 64 to 131072, around every
 /// multiple of 1024, the last three steps, and every `stride`-th step in between.
@@ -470,7 +473,14 @@ pub fn ref_drivers_sparse<T: Scalar>(property: &str, spec: &Spec, drivers: &[(&'
         let Some(v) = build_or_report::<T>(property, spec, sink) else { return };
         let mut s = RefState { v, tainted: T::inexact() > c0 };
         let mut ht: Vec<T> = Vec::with_capacity(hist.len());
+        let started = std::time::Instant::now();
         for i in 0..hist.len() {
+            // a wall-clock budget per driver: a change that turns an O(1) update into O(N) must make this
+            // family give up (counted in the evidence), not hang the whole check into its watchdog
+            if i % 4096 == 4095 && started.elapsed().as_secs() > SCALE_BUDGET_S {
+                st.bump("scale_family_budget_exceeded", 1);
+                return;
+            }
             let c0 = T::inexact();
             let x = T::of(hist[i]);
             ht.push(x);
